@@ -1550,8 +1550,12 @@ class Protocol(utils.EventEmitter):
             )
 
             if packet_type == self.PacketType.SINGLE_PACKET:
+                # A single packet has a 2-byte header: the whole payload fits
                 header = bytes([first_header_byte, message.signal_identifier])
-            elif packet_type == self.PacketType.START_PACKET:
+                self.l2cap_channel.write(header + payload)
+                return
+
+            if packet_type == self.PacketType.START_PACKET:
                 packet_count = (
                     max_fragment_size - 1 + len(payload)
                 ) // max_fragment_size
